@@ -164,5 +164,11 @@ McMsgLists ==
   \cup {<<M(t, s, z)>> : t \in DataOps, s \in McSizes, z \in BOOLEAN}
   \cup {<<[M(OpText, s, z) EXCEPT !.nl = TRUE]>> : s \in {2, 124, 125}, z \in BOOLEAN}     \* JSON texts
   \cup {<<M(OpText, s1, z1), M(OpBin, s2, z2)>> : s1 \in {0, 126}, s2 \in {1, 65536}, z1 \in BOOLEAN, z2 \in BOOLEAN}
+\* the run over all deviations: fewer lists, each deviation still has a list on which it shows
+McDevMsgLists ==
+  {<<>>}
+  \cup {<<M(t, s, z)>> : t \in {OpText}, s \in {1, 125, 65535}, z \in BOOLEAN}
+  \cup {<<[M(OpText, 124, FALSE) EXCEPT !.nl = TRUE]>>}
+  \cup {<<M(OpText, 126, z1), M(OpBin, 1, z2)>> : z1 \in BOOLEAN, z2 \in BOOLEAN}
 McFragLens == {0, 1, 125, 126, 65535, 65536}
 =============================================================================
